@@ -34,6 +34,11 @@ func c16Rules() []*bt.GC {
 		{Kind: "inter", Subs: []*bt.GC{mv(1), age}},
 		{Kind: "union", Subs: []*bt.GC{{Kind: "union", Subs: []*bt.GC{mv(3)}}, age}},
 		{Kind: "union", Subs: []*bt.GC{{Kind: "inter", Subs: []*bt.GC{mv(1), age}}, mv(3)}},
+		// the smallest values: keep no version at all (every cell is condemned, the rows disappear), alone and as
+		// a member of a union; a maximum age of zero (every cell older than now)
+		mv(0),
+		{Kind: "union", Subs: []*bt.GC{age, mv(0)}},
+		{Kind: "maxage", AgeSec: 0},
 	}
 }
 
